@@ -6,6 +6,7 @@ package pbytes
 
 //@ property C19
 //@ func (*Pool).Get
+//@   params p c
 //@   mode bv
 //@   requires p != nil && pool.inv(p.pool) && p.pool.stepSize <= 1<<47 && 0 <= c && c <= 1<<47
 //@   requires SIall: forallint(i, forallv(x, *[]byte, forallint(s, pool.SI(p.pool, i, x, s))))
@@ -14,6 +15,7 @@ package pbytes
 //@   ensures once: nemitted() <= 1
 
 //@ func (*Pool).Put
+//@   params p bts
 //@   mode bv
 //@   forall i0 int
 //@   forall x0 *[]byte
@@ -25,6 +27,7 @@ package pbytes
 //@   ensures once: nemitted() <= 1
 
 //@ func New
+//@   params max
 //@   mode bv
 //@   requires max <= pmath.maxintHeadBit
 //@   ensures result != nil && pool.inv(result.pool)
@@ -33,6 +36,7 @@ package pbytes
 // (established by New, preserved by every Put and Get, see pool.Pool.Put#post:shard)
 // is an explicit assumption here.
 //@ func Get
+//@   params c
 //@   event
 //@   mode bv
 //@   requires 0 <= c && c <= 1<<47
@@ -46,6 +50,7 @@ package pbytes
 //@   ensures_assumed exclusive: fresh(result) && fresh(*result)
 
 //@ func Put
+//@   params p
 //@   event
 //@   mode bv
 //@   forall i0 int
